@@ -231,7 +231,9 @@ func streamRun(in []byte, f func(mr stream.MsgReceiver, bound int) string) strin
 
 const streamBuf = 16
 
-func vs(b []byte) *stream.ValueSize { return &stream.ValueSize{Content: bytes.NewReader(b), Size: len(b)} }
+func vs(b []byte) *stream.ValueSize {
+	return &stream.ValueSize{Content: bytes.NewReader(b), Size: len(b)}
+}
 
 // ---------- encodings (parent only) ----------
 
@@ -382,9 +384,9 @@ func buildPureTargets(thorough bool) {
 		}
 		return fmt.Sprintf("ok for %d of %d (type, maxLen) pairs", ok, len(sqlKeyTypes))
 	})
-	tokLen, sqlRaw := 4, 2
+	tokLen, sqlRaw := 3, 2
 	if thorough {
-		tokLen, sqlRaw = 5, 3
+		tokLen, sqlRaw = 4, 3
 	}
 	ts := addTarget(thorough, 4096, "sql.ParseSQLString", sqlRaw, sqlRaw, func(_ *enc, in []byte) string {
 		_, err := sql.ParseSQLString(string(in))
